@@ -68,13 +68,14 @@ Definition op_contrib (req : sx) : sx :=
                             (mkHopts (bool_of_sx (sx_nth req 2)) (bool_of_sx (sx_nth req 3)))
                             (tok_of_sx (sx_nth req 4))).
 
-(* ---- X-toc : (19 depth omit dq sq tree) -> ((level content) ...) ---- *)
+(* ---- X-toc : (19 depth omit dq sq tree) -> (((level content) ...) (toc lines) (tokens of the toc lines)) ---- *)
 Definition op_toc (req : sx) : sx :=
   let cfg := mkTocCfg (z_of_sx (sx_nth req 1)) (bool_of_sx (sx_nth req 2)) in
   let o := mkHopts (bool_of_sx (sx_nth req 3)) (bool_of_sx (sx_nth req 4)) in
   let hs := toc_headings cfg [] o (tok_of_sx (sx_nth req 5)) in
   SxL [SxL (map (fun e => SxL [SxZ (fst e); sx_of_str (snd e)]) hs);
-       SxL (map sx_of_str (toc_lines hs))].
+       SxL (map sx_of_str (toc_lines hs));
+       SxL (map sx_of_tok (toc_tokens [] (toc_lines hs)))].
 Definition op_strip_tags (req : sx) : sx := sx_of_str (strip_tags (str_of_sx (sx_nth req 1))).
 
 (* ---- X-lines : (15 form text) ---- *)
